@@ -82,6 +82,10 @@ class FakeChannel:
 
     def send(self, obj: Any) -> None:
         w = self.w
+        if w.boot_msg is not None:
+            # execnet serialises at the moment of the send: what the peer gets is the value the object had then, whatever the
+            # sender does to it afterwards (each.py sends its own `pending` list and pops from it later)
+            obj = execnet.loads(execnet.dumps(obj))
         if not w.alive and (w.end_seen or self.sim.cfg.oserror_window):
             # execnet: once the end marker was seen the channel is closed and every send raises; before that a write into the
             # pipe of a dead peer may or may not raise (`oserror_window`).  Either way the controller has booked the command
@@ -103,7 +107,11 @@ class FakeChannel:
         self.callback, self.endmarker = cb, endmarker
 
     def _getremoteerror(self) -> Any:
-        return None
+        # how the channel ended, as execnet reports it: nothing / a lost connection / an exception raised by the worker's entry
+        # code.  Whatever it is, the end of the channel is the death of the worker (a function of the configuration, not of the
+        # random stream, so that recorded schedules replay)
+        kind = (self.w.number * 7 + len(self.sim.cfg.ids) + self.sim.cfg.numnodes) % 4
+        return [None, EOFError("connection lost"), RuntimeError("remote entry code raised"), None][kind]
 
     def isclosed(self) -> bool:
         return not self.w.alive
@@ -478,6 +486,7 @@ class Sim:
         self.notes: list[str] = []
         self.q_breaks: list[tuple] = []     # load mode: loop boundaries at which a registered live worker holds < 2 tests while the pool is non-empty
         self.ready_ids: list[str] = []
+        self.steal_breaks: list[tuple] = []  # worksteal: a processed steal answer whose tests are still in the victim's book
         self.replay = list(schedule) if schedule is not None else None
         self.wirelog: list[tuple[str, str, Any]] = []     # (worker id, command, payload) in send order
         self.published: list[tuple] = []
@@ -725,6 +734,16 @@ class Sim:
             for node, book in sc.node2pending.items():
                 if node in sc.node2collection and not node.shutting_down and len(book) < 2 and sc.pending:
                     self.q_breaks.append((len(self.ctl_lines), node.gateway.id, list(book), len(sc.pending)))
+        if (exc is None and o["event"] == "unscheduled" and o["kwargs"].get("indices") and self.dsession is not None
+                and hasattr(self.dsession.sched, "steal_requested_from_node")):
+            # C07 (controller side): an answered steal request is accounted for in the very iteration that handles the answer --
+            # the withdrawn tests left the victim's book (unless this iteration handed them to it again)
+            v = o["kwargs"]["node"]
+            book = list(self.dsession.sched.node2pending.get(v, []))
+            resent = [i for wid, name, kw in self.wirelog[o["wire_from"]:] if wid == v.gateway.id and name == "runtests" for i in kw["indices"]]
+            left = [i for i in o["kwargs"]["indices"] if i in book and i not in resent]
+            if left:
+                self.steal_breaks.append((len(self.ctl_lines), v.gateway.id, list(o["kwargs"]["indices"]), left))
         if exc is not None:
             self.ctl_obs.append(type(exc).__name__)
         else:
